@@ -217,6 +217,24 @@ Proof.
 Qed.
 Close Scope string_scope.
 
+(* ================================================================== sampling chunks *)
+Lemma list_sum_const_seq (f : nat -> nat) (c a q : nat) :
+  (forall i, a <= i < a + q -> f i = c) -> list_sum (map f (seq a q)) = q * c.
+Proof.
+  revert a. induction q as [|q IH]; intros a H; [reflexivity|].
+  simpl. rewrite H by lia. rewrite IH; [lia|]. intros i Hi. apply H. lia.
+Qed.
+
+(* the chunks drawn by the sampling loop add up to n_shots, for every n_shots and every chunk size *)
+Theorem chunk_sizes_total (n c : nat) : 0 < c -> list_sum (chunk_sizes n c) = n.
+Proof.
+  intro Hc. unfold chunk_sizes. rewrite Nat.add_1_r, seq_S, map_app, list_sum_app. simpl.
+  rewrite Nat.eqb_refl.
+  rewrite (list_sum_const_seq _ c 0 (n / c)).
+  - rewrite (Nat.div_mod n c) at 3 by lia. lia.
+  - intros i Hi. destruct (Nat.eqb_spec i (n / c)); [lia|reflexivity].
+Qed.
+
 (* ================================================================== dispatch tables *)
 Lemma smem_In (s : string) (l : list string) : smem s l = true <-> In s l.
 Proof.
